@@ -12,6 +12,8 @@ package commands
 //   * checks that a file leaves the process-global compiler settings a test can override with
 //     `@compile unknown= unused= optimize=` as a file without any @compile leaves them (a later test or
 //     file compiled under another test's override is not isolated from it).
+// Every body with balanced braces is also written in the older style without braces (bare statements after
+// `@test "name"`; what it declares then lives in the scope shared by all tests of the file).
 // A watchdog turns a run that does not finish (a misrouted catch can loop for ever) into a failure.
 
 import (
@@ -58,6 +60,9 @@ var c13Templates = []c13Tmpl{
 	{"p-range-return", 'P', 0, 2, "-", false, "{\n    for _, v := range []int{1, 2, 3} {\n        if v == 2 {\n            return\n        }\n    }\n}\n"},
 	{"p-late-bound", 'P', 0, 0, "-", false, "{\n    n%d := 0\n    if n%d > 0 {\n        n%d = c13late%d\n    }\n    @assert n%d == 0\n}\n"},
 	{"p-defer", 'P', 0, 0, "-", false, "{\n    func g%d() int {\n        defer func() { c13shared = c13shared + 1 }()\n        return 4\n    }\n    @assert g%d() == 4\n}\n"},
+	// a defer written directly in a test body (whether it ever runs is not C13's business; the verdicts are)
+	{"p-defer-in-body", 'P', 0, 0, "-", false, "{\n    defer func() { c13shared = c13shared + 1 }()\n    @assert c13fact(3) == 6\n}\n"},
+	{"p-decl-shared-later", 'P', 0, 0, "-", false, "{\n    s%d := c13fact(3)\n    c13shared = c13shared + s%d\n    @assert c13shared > 6\n}\n"},
 	// ---- assertion failures
 	{"a-assert", 'A', 0, 0, "-", false, "{\n    @assert 1 == 2\n}\n"},
 	{"a-print-assert", 'A', 0, 0, "-", false, "{\n    fmt.Println(\"out-%d\")\n    @assert false\n}\n"},
@@ -65,6 +70,7 @@ var c13Templates = []c13Tmpl{
 	{"a-in-range", 'A', 0, 2, "-", false, "{\n    for _, v := range []int{1, 2, 3} {\n        @assert v < 2\n    }\n}\n"},
 	{"a-stale-break", 'A', 0, 0, "7", true, "{\n    for i := 0; i < 3; i = i + 1 {\n        try {\n            if i == 1 {\n                break\n            }\n        } catch {\n        }\n    }\n    @assert 1 == 2\n}\n"},
 	{"a-method", 'A', 0, 0, "-", false, "{\n    T.True(false)\n}\n"},
+	{"a-defer-in-body", 'A', 0, 0, "-", false, "{\n    defer func() { c13shared = c13shared + 1 }()\n    @assert c13fact(3) == 7\n}\n"},
 	// ---- run-time errors
 	{"r-divzero", 'R', 0, 0, "-", false, "{\n    z%d := 0\n    fmt.Println(5 / z%d)\n}\n"},
 	{"r-index", 'R', 0, 0, "-", false, "{\n    a%d := []int{1, 2}\n    fmt.Println(a%d[7])\n}\n"},
@@ -77,6 +83,19 @@ var c13Templates = []c13Tmpl{
 	{"r-in-range", 'R', 0, 2, "-", false, "{\n    z%d := 0\n    for _, v := range []int{1, 2, 3} {\n        fmt.Println(v / z%d)\n    }\n}\n"},
 	{"r-in-defer-func", 'R', 0, 1, "-", false, "{\n    func dd%d() {\n        defer func() { c13shared = c13shared + 1 }()\n        @error \"in dd\"\n    }\n    dd%d()\n}\n"},
 	{"r-unknown-symbol", 'R', 0, 0, "-", false, "{\n    fmt.Println(c13nosuch%d)\n}\n"},
+	{"r-defer-in-body", 'R', 0, 0, "-", false, "{\n    defer func() { c13shared = c13shared + 1 }()\n    @error \"boom %d\"\n}\n"},
+	// errors raised without a message, and calls with a wrong number of arguments
+	{"r-error-bare", 'R', 0, 0, "-", false, "{\n    @error\n}\n"},
+	{"r-error-bare-after-decl", 'R', 0, 0, "-", false, "{\n    q%d := c13fact(2)\n    fmt.Println(q%d)\n    @error\n}\n"},
+	{"r-error-bare-in-func", 'R', 0, 1, "-", false, "{\n    func eb%d() {\n        @error\n    }\n    eb%d()\n}\n"},
+	{"r-error-bare-in-catch", 'R', 0, 0, "0", false, "{\n    try {\n        @error\n    } catch {\n        @error\n    }\n}\n"},
+	{"r-argc-builtin-none", 'R', 0, 0, "-", false, "{\n    fmt.Println(len())\n}\n"},
+	{"r-argc-builtin-many", 'R', 0, 0, "-", false, "{\n    n%d := len(\"a\", \"b\", \"c\")\n    fmt.Println(n%d)\n}\n"},
+	{"r-argc-append-none", 'R', 0, 0, "-", false, "{\n    a%d := append()\n    fmt.Println(a%d)\n}\n"},
+	{"r-argc-package", 'R', 0, 0, "-", false, "{\n    u%d := strings.ToUpper(\"a\", \"b\")\n    fmt.Println(u%d)\n}\n"},
+	{"r-argc-package-none", 'R', 0, 0, "-", false, "{\n    fmt.Println(strings.ToUpper())\n}\n"},
+	{"r-argc-user-many", 'R', 0, 0, "-", false, "{\n    fmt.Println(c13fact(1, 2))\n}\n"},
+	{"r-argc-user-none", 'R', 0, 0, "-", false, "{\n    fmt.Println(c13fact())\n}\n"},
 	// ---- compile errors
 	{"c-unknown-statement", 'C', 0, 0, "-", false, "{\n    pring \"typo\"\n}\n"},
 	{"c-missing-brace", 'P', 1, 0, "-", false, "{\n    x%d := 1\n    if x%d == 1 {\n        x%d = 2\n}\n"},
@@ -88,6 +107,12 @@ var c13Templates = []c13Tmpl{
 	{"c-unterminated-string", 'C', 0, 0, "-", false, "{\n    x%d := \"abc\n    @assert true\n}\n"},
 	{"c-return-value", 'C', 0, 0, "-", false, "{\n    return 5\n}\n"},
 	{"c-bad-expression", 'C', 0, 0, "-", false, "{\n    @assert 1 == \n}\n"},
+	// declarations before the statement that does not compile (read before it, after it, never)
+	{"c-decl-then-typo", 'C', 0, 0, "-", false, "{\n    y%d := 5\n    pring \"typo\"\n}\n"},
+	{"c-decl-typo-then-use", 'C', 0, 0, "-", false, "{\n    w%d := 5\n    pring \"typo\"\n    @assert w%d == 5\n}\n"},
+	{"c-decl-use-then-typo", 'C', 0, 0, "-", false, "{\n    w%d := 5\n    @assert w%d == 5\n    pring \"typo\"\n}\n"},
+	{"c-var-decl-then-bad-token", 'C', 0, 0, "-", false, "{\n    var k%d int\n    j%d := 2 $ 3\n    @assert k%d == j%d\n}\n"},
+	{"c-func-decl-then-typo", 'C', 0, 0, "-", false, "{\n    func hf%d() int {\n        return 1\n    }\n    m%d := hf%d()\n    pring \"typo\"\n    @assert m%d == 1\n}\n"},
 	// ---- @fail
 	{"f-fail", 'F', 0, 0, "-", false, "{\n    @fail \"halt here %d\"\n}\n"},
 	{"f-fail-bare", 'F', 0, 0, "-", false, "{\n    @fail\n}\n"},
@@ -96,21 +121,30 @@ var c13Templates = []c13Tmpl{
 }
 
 // c13Override marks the templates whose body installs a compiler-setting override with
-// `@compile unknown=|unused=|optimize=`; c13LastOnly marks the bodies that may only be the last block of
-// a file (an `@compile eof=` whose marker is missing is lexical damage like an unterminated raw string:
-// the rest of the file belongs to it). c13Dependents are the templates whose verdict depends on the
+// `@compile unknown=|unused=|optimize=`; c13Eof marks the bodies with an `@compile eof=` directive
+// (1: the marker is missing - the directive does not compile, and the tests after it are still tests;
+// 2: the span ends at its marker). c13Dependents are the templates whose verdict depends on the
 // default compiler settings (unknown names are left to run time; an unused variable is an error).
+// c13NoBare are the bodies that mean something else without their braces: a variable that is never read
+// is an error of the block it is declared in, and without braces that block is the whole file (the
+// unused-variable check of the file scope runs once, when the file ends, and is not any test's failure).
 var (
 	c13Override   = map[string]bool{}
-	c13LastOnly   = map[string]bool{}
+	c13Eof        = map[string]int{}
 	c13Dependents = []string{"p-late-bound", "r-unknown-symbol", "c-unused-variable"}
+	c13NoBare     = map[string]bool{"c-unused-variable": true,
+		// the tokenizer closes the string at the end of the line: the body's only error is that x is never read
+		"c-unterminated-string": true,
+		// the body's only error is that the catch variable is never read
+		"c-compile-unknown-catch-var-unused": true, "c-compile-unused-catch-var-unused": true, "c-compile-optimize-catch-var-unused": true}
 )
 
 // The @compile templates. Every override (unknown=true, unused=false, optimize=2; the defaults of
 // `ego test` are false, true, 0) appears in directives that compile (the block compiles, or its error
 // is caught, or it is raised at run time) and in directives that fail at directive level AFTER the flags
 // were read: a catch clause that does not compile, a catch variable that is not a name, a missing ")",
-// a catch variable that is never used, a missing eof marker.
+// a catch variable that is never used, a missing eof marker (the marker text is unique to the block, so no
+// later block can end the span by accident).
 func init() {
 	add := func(tag string, kind byte, src string) {
 		c13Templates = append(c13Templates, c13Tmpl{tag, kind, 0, 0, "-", false, src})
@@ -127,8 +161,8 @@ func init() {
 		add("c-compile-"+ov[0]+"-catch-missing-paren", 'C', head+"    } catch(e {\n    }\n}\n")
 		add("c-compile-"+ov[0]+"-catch-var-unused", 'C', head+"    } catch(e) {\n    }\n}\n")
 		add("c-compile-"+ov[0]+"-missing-eof-marker", 'C',
-			"{\n    @compile block "+ov[1]+" eof=\"$END\"\n"+okBlock+"    catch(e) {\n        @assert e != nil\n    }\n}\n")
-		c13LastOnly["c-compile-"+ov[0]+"-missing-eof-marker"] = true
+			"{\n    @compile block "+ov[1]+" eof=\"$MISSING%d\"\n"+okBlock+"    catch(e) {\n        @assert e != nil\n    }\n}\n")
+		c13Eof["c-compile-"+ov[0]+"-missing-eof-marker"] = 1
 	}
 
 	// the block fails under the override AND the catch clause does not compile
@@ -148,6 +182,16 @@ func init() {
 		"{\n    @compile block opt=off unused=on unknown=off {\n"+okBlock+"    } catch(e) {\n        @fail e.Error()\n    }\n}\n")
 	add("p-compile-eof-unknown-caught", 'P',
 		"{\n    f%d := false\n    @compile block unknown=true eof=\"$END\"\n        u%d := c13nosuchC%d\n        fmt.Println(u%d)\n    $END\n    catch(e) {\n        f%d = e != nil\n    }\n    @assert f%d == true\n}\n")
+	c13Eof["p-compile-eof-unknown-caught"] = 2
+	// the span is unbalanced on purpose and ends at its marker; the error is caught / not caught
+	add("p-compile-eof-unbalanced-caught", 'P',
+		"{\n    f%d := false\n    @compile block eof=\"$END\"\n        if true {\n            fmt.Println(\"never closed\")\n    $END\n    catch(e) {\n        f%d = e != nil\n    }\n    @assert f%d == true\n}\n")
+	c13Eof["p-compile-eof-unbalanced-caught"] = 2
+	delete(c13Override, "p-compile-eof-unbalanced-caught")
+	add("r-compile-eof-unbalanced-not-caught", 'R',
+		"{\n    @compile block eof=\"$END\"\n        if true {\n            fmt.Println(\"never closed\")\n    $END\n    @assert true\n}\n")
+	c13Eof["r-compile-eof-unbalanced-not-caught"] = 2
+	delete(c13Override, "r-compile-eof-unbalanced-not-caught")
 	add("p-compile-program-unknown-optimize", 'P',
 		"{\n    f%d := false\n    @compile unknown=true optimize=1 {\n        func c13g%d() int {\n            return c13nosuchD%d\n        }\n    } catch(e) {\n        f%d = e != nil\n    }\n    @assert f%d == true\n}\n")
 	add("r-compile-unknown-not-caught", 'R',
@@ -202,6 +246,52 @@ type c13Block struct {
 	id   int
 	tmpl int
 	desc string
+	bare bool // written without the outer braces (only for templates c13CanBare accepts)
+}
+
+// c13CanBare: the body is one braced block with balanced braces, and means the same without them.
+func c13CanBare(t c13Tmpl) bool {
+	return t.brace == 0 && !c13NoBare[t.tag] && strings.HasPrefix(t.src, "{\n") && strings.HasSuffix(t.src, "\n}\n")
+}
+
+// c13BareSrc takes the outer braces (and one level of indentation) away.
+func c13BareSrc(src string) string {
+	lines := strings.Split(strings.TrimSuffix(strings.TrimPrefix(src, "{\n"), "}\n"), "\n")
+	for i, l := range lines {
+		lines[i] = strings.TrimPrefix(l, "    ")
+	}
+
+	return strings.Join(lines, "\n")
+}
+
+func (blk c13Block) isBare() bool {
+	return blk.bare || !strings.HasPrefix(c13Templates[blk.tmpl].src, "{")
+}
+
+// shape is the model's view of the block's source (lean/EgoVerif/C13/Model.lean, Block.toks).
+func (blk c13Block) shape() int {
+	t := c13Templates[blk.tmpl]
+
+	switch eof := c13Eof[t.tag]; {
+	case t.brace != 0:
+		return t.brace
+	case eof != 0 && blk.isBare():
+		return 5 + eof
+	case eof != 0:
+		return 3 + eof
+	case blk.isBare():
+		return 3
+	default:
+		return 0
+	}
+}
+
+func (blk c13Block) tag() string {
+	if blk.bare {
+		return c13Templates[blk.tmpl].tag + "~bare"
+	}
+
+	return c13Templates[blk.tmpl].tag
 }
 
 type c13File struct {
@@ -231,7 +321,12 @@ func (f c13File) source() string {
 		}
 
 		fmt.Fprintf(&b, "@test %s\n", strconv.Quote(blk.desc))
-		fmt.Fprintf(&b, t.src, args...)
+
+		if blk.bare {
+			fmt.Fprintf(&b, c13BareSrc(t.src), args...)
+		} else {
+			fmt.Fprintf(&b, t.src, args...)
+		}
 	}
 
 	return b.String()
@@ -243,7 +338,7 @@ func (f c13File) line() string {
 
 	for i, blk := range f.blocks {
 		t := c13Templates[blk.tmpl]
-		parts[i] = fmt.Sprintf("%d:%c:%d:%s:%d", blk.id, t.kind, t.junk, t.leak, t.brace)
+		parts[i] = fmt.Sprintf("%d:%c:%d:%s:%d", blk.id, t.kind, t.junk, t.leak, blk.shape())
 	}
 
 	return "file " + strings.Join(parts, ";")
@@ -252,7 +347,7 @@ func (f c13File) line() string {
 func (f c13File) tags() string {
 	parts := make([]string, len(f.blocks))
 	for i, blk := range f.blocks {
-		parts[i] = c13Templates[blk.tmpl].tag
+		parts[i] = blk.tag()
 	}
 
 	return strings.Join(parts, " ")
@@ -367,21 +462,32 @@ func c13Run(dir string, seq int, src string, limit time.Duration) c13Result {
 
 // c13Class names the failing class from the shape of the input and of the failure.
 func c13Class(f c13File, res c13Result, want []string) string {
-	stale, unbalanced, runtime, override := false, false, false, false
+	stale, unbalanced, runtime, override, bareCompileErr, eofMissingInside := false, false, false, false, false, false
 
-	for _, blk := range f.blocks {
+	for i, blk := range f.blocks {
 		t := c13Templates[blk.tmpl]
 		override = override || c13Override[t.tag]
 		stale = stale || t.stale
 		unbalanced = unbalanced || t.brace != 0
 		runtime = runtime || t.kind == 'A' || t.kind == 'R'
+		// a body without braces that does not compile (what it declared before the error is in the file scope)
+		bareCompileErr = bareCompileErr || (blk.isBare() && t.kind == 'C')
+		// an @compile eof= whose marker is missing, with at least one test after it
+		eofMissingInside = eofMissingInside || (c13Eof[t.tag] == 1 && i < len(f.blocks)-1)
 	}
 
 	got := strings.Join(res.lines, ",")
+	_, wantStop := f.want()
 
 	switch {
 	case override && res.settings != res.settingsBefore:
 		return "compile-directive-override-outlives-test"
+	case bareCompileErr && len(res.lines) == 0 && len(want) > 0 && !res.hung:
+		return "bare-test-compile-error-fails-whole-file"
+	case eofMissingInside && strings.HasPrefix(strings.Join(want, ","), got) && !res.hung &&
+		(len(res.lines) < len(want) || (wantStop && !res.stopped)):
+		// the tests after the directive are not reported (an @fail among them does not stop the run either)
+		return "missing-eof-marker-swallows-later-tests"
 	case stale && (res.hung || res.stopped || len(res.lines) > len(want)):
 		return "stale-try-misroutes-error"
 	case unbalanced && len(res.lines) < len(want) && strings.HasPrefix(strings.Join(want, ","), got):
@@ -402,19 +508,7 @@ func c13ByKind(kind byte, braceOK bool) []int {
 			k = 'C'
 		}
 
-		if k == kind && (braceOK || t.brace == 0) && !c13LastOnly[t.tag] {
-			out = append(out, i)
-		}
-	}
-
-	return out
-}
-
-func c13LastOnlyList() []int {
-	var out []int
-
-	for i, t := range c13Templates {
-		if c13LastOnly[t.tag] {
+		if k == kind && (braceOK || t.brace == 0) {
 			out = append(out, i)
 		}
 	}
@@ -439,6 +533,8 @@ func c13Permutations(a []byte) [][]byte {
 	return out
 }
 
+const c13BareBit = 1 << 20
+
 func TestVerifC13(t *testing.T) {
 	cases := verifh.Out("c13_cases.jsonl")
 	fails := verifh.Out("c13_failures.jsonl")
@@ -461,12 +557,15 @@ func TestVerifC13(t *testing.T) {
 
 	rnd := verifh.Rand(13)
 	nextID := 0
+	// mk builds a file from template numbers; a number + c13BareBit asks for the body without its braces
 	mk := func(tmpls []int, preamble bool) c13File {
 		f := c13File{preamble: preamble}
 
 		for _, ti := range tmpls {
 			nextID++
-			f.blocks = append(f.blocks, c13Block{id: nextID, tmpl: ti,
+			bare := ti >= c13BareBit
+			ti &= c13BareBit - 1
+			f.blocks = append(f.blocks, c13Block{id: nextID, tmpl: ti, bare: bare && c13CanBare(c13Templates[ti]),
 				desc: fmt.Sprintf("t%dx%s%s", nextID, c13Templates[ti].tag, c13Suffixes[rnd.Intn(len(c13Suffixes))])})
 		}
 
@@ -502,9 +601,14 @@ func TestVerifC13(t *testing.T) {
 			var tmpls []int
 
 			for _, tag := range strings.Fields(tl) {
+				bare := 0
+				if strings.HasSuffix(tag, "~bare") {
+					tag, bare = strings.TrimSuffix(tag, "~bare"), c13BareBit
+				}
+
 				for i, tm := range c13Templates {
 					if tm.tag == tag {
-						tmpls = append(tmpls, i)
+						tmpls = append(tmpls, i+bare)
 					}
 				}
 			}
@@ -515,21 +619,29 @@ func TestVerifC13(t *testing.T) {
 		passT := c13ByKind('P', false)[0]
 		// corpus 1: every template alone, then followed and preceded by a passing test
 		for i, tm := range c13Templates {
-			switch {
-			case c13LastOnly[tm.tag]:
-				files = append(files, mk([]int{i}, false), mk([]int{passT, i}, false))
-			case !tm.stale:
+			if !tm.stale {
 				files = append(files, mk([]int{i}, false), mk([]int{passT, i, passT}, false))
+			}
+		}
+		// corpus 1a: the same without the body's braces (the older style): between a passing test and a failing
+		// one that are written without braces too, then a passing test with braces; the bodies that do not
+		// compile also alone (thorough: every body alone and between two passing tests)
+		failT := c13Tag("a-assert")
+		for i, tm := range c13Templates {
+			if !tm.stale && c13CanBare(tm) {
+				b := i + c13BareBit
+				files = append(files, mk([]int{passT + c13BareBit, b, failT + c13BareBit, passT}, false))
+
+				if tm.kind == 'C' || verifh.Thorough() {
+					files = append(files, mk([]int{b}, false), mk([]int{passT, b, passT}, false))
+				}
 			}
 		}
 		// corpus 1b: every body that overrides a compiler setting, followed by each body whose verdict
 		// depends on the default settings (and the reverse order for the last-only bodies)
 		for i, tm := range c13Templates {
 			for _, dep := range c13Dependents {
-				switch {
-				case c13LastOnly[tm.tag]:
-					files = append(files, mk([]int{c13Tag(dep), i}, false))
-				case c13Override[tm.tag]:
+				if c13Override[tm.tag] {
 					files = append(files, mk([]int{i, c13Tag(dep), passT}, false))
 				}
 			}
@@ -539,7 +651,7 @@ func TestVerifC13(t *testing.T) {
 			tmpls := make([]int, 0, 6)
 			for _, k := range p {
 				c := c13ByKind(k, true)
-				tmpls = append(tmpls, c[rnd.Intn(len(c))])
+				tmpls = append(tmpls, c[rnd.Intn(len(c))]+c13BareBit*rnd.Intn(2))
 			}
 
 			files = append(files, mk(append(tmpls, passT), rnd.Intn(2) == 0))
@@ -570,9 +682,11 @@ func TestVerifC13(t *testing.T) {
 				}
 			}
 
-			// a body with a missing eof marker can only end a file
-			if lo := c13LastOnlyList(); rnd.Intn(12) == 0 {
-				tmpls[k-1] = lo[rnd.Intn(len(lo))]
+			// a third of the files have bodies without braces (each body that can, with probability 1/2)
+			if rnd.Intn(3) == 0 {
+				for i := range tmpls {
+					tmpls[i] += c13BareBit * rnd.Intn(2)
+				}
 			}
 
 			files = append(files, mk(tmpls, rnd.Intn(3) == 0))
@@ -628,6 +742,10 @@ func TestVerifC13(t *testing.T) {
 
 		for _, blk := range f.blocks {
 			stats.Inc("tmpl_" + c13Templates[blk.tmpl].tag)
+
+			if blk.isBare() {
+				stats.Inc("blocks_without_braces")
+			}
 		}
 
 		bad := ""
